@@ -17,6 +17,12 @@ ORACLE streams (the part no theorem carries; they support, never replace, the th
   gk-symmetry  sea antisymmetry / valence support on the real GPD functions
   gk-pole      sea GPDs where the sea Regge intercept alpha(t,Q2) crosses 1 (Gamma(1+p) pole of the
                closed form; the DD integral itself is finite there)
+  gk-options   every keyword option beyond (x, eta, t, Q2) of the public GPD functions (discovered with
+               inspect.signature; today Edval(..., DMbeta)) at its non-default values, keyword and positional,
+               DGLAP / ERBL, vs the DD integral of the forward profile THAT OPTION defines (OPTION_TABLE);
+               Im CFFs forwarding such an option (ImE(pt, xi, DMbeta)) vs pi sum_q e_q^2 (val + 2 sea)(xi, xi)
+  gk-moment    int_-1^1 dx E^q_val(x, eta, t) = int drho e_q(rho, t) for every eta, = kappa_q at t = 0
+               (GK12 Table 1), for every option value: quadrature of the real function, no DD integral
 """
 import json
 import math
@@ -133,9 +139,71 @@ def alpha_sea(t, Q2):
     return 1.10 + 0.06 * L - 0.0027 * L ** 2 + 0.15 * t
 
 
-def profiles(mp, name, t, Q2):
+# Keyword options of the public GPD functions beyond (x, eta, t, Q2), as documented in gk.py, and the forward profile each value
+# DEFINES.  (function, option) -> (documented default, other values to evaluate).  Options are DISCOVERED on the real class with
+# inspect.signature (gk_option_functions); an option found there that is missing here is noted as not covered.
+#   Edval(..., DMbeta=False): GK12 Table 1: e_d(rho) = kappa_d / B(1-alpha0, 1+beta_d) rho^-alpha(t) (1-rho)^beta_d with kappa_d = -2.03,
+#       alpha0 = 0.48, alpha' = 0.9, beta_d = 5.6 (the code expands (1-rho)^2.6 up to rho^8);  DMbeta=True ("choice of DM in his
+#       notebook"): the same with beta_d = 6, i.e. (1-rho)^3 (1-rho)^3 exactly, normalised with B(0.52, 7)
+OPTION_TABLE = {('Edval', 'DMbeta'): (False, [True])}
+# lowest x-moment at t = 0 of the valence GPDs E^q_val: the forward-profile normalisation kappa_q (GK12 Table 1; the flavour
+# decomposition of the anomalous magnetic moments, kappa_u = 2 kappa_p + kappa_n = 1.673, kappa_d = kappa_p + 2 kappa_n = -2.032),
+# whatever the option and whatever eta (polynomiality)
+KAPPA = {'Euval': 1.67, 'Edval': -2.03}
+OPTION_DOC = {('Edval', (('DMbeta', True),)): '-2.03/B(0.52, 7) rho^-(0.48+0.9t) (1-rho)^6',
+              ('Edval', (('DMbeta', False),)): '-2.03/B(0.52, 6.6) rho^-(0.48+0.9t) (1-rho)^5.6, (1-rho)^2.6 expanded to rho^8'}
+# Im CFF = pi sum_q e_q^2 (F^q(xi, xi) - F^q(-xi, xi)) = pi sum_q e_q^2 (F^q_val + 2 F^q_sea)(xi, xi): (e_q^2, valence, sea)
+CFF_FLAVOURS = {'ImE': [(4. / 9, 'Euval', 'Esea'), (1. / 9, 'Edval', 'Esea'), (1. / 9, None, 'Esea')]}
+
+
+def opts_key(opts):
+    return tuple(sorted((opts or {}).items()))
+
+
+def opts_str(opts):
+    return ', '.join('%s=%r' % kv for kv in opts_key(opts))
+
+
+def gk_option_functions(cls):
+    """public functions DEFINED in the module of cls taking keyword options: {name: (kind, [(option, default)])},
+    kind 'gpd' for f(x, eta, t, Q2, <options>), 'cff' for f(pt, [xi,] <options>)"""
+    import inspect
+    out = {}
+    for name, f in inspect.getmembers(cls, inspect.isfunction):
+        if name.startswith('_') or getattr(f, '__module__', None) != cls.__module__:
+            continue
+        ps = [q for q in list(inspect.signature(f).parameters.values())[1:]
+              if q.kind in (q.POSITIONAL_OR_KEYWORD, q.KEYWORD_ONLY)]
+        names = [q.name for q in ps]
+        if names[:4] == ['x', 'eta', 't', 'Q2']:
+            kind, extra = 'gpd', ps[4:]
+        elif names[:1] == ['pt']:
+            kind, extra = 'cff', [q for q in ps[1:] if q.name not in ('xi', 'imfun')]
+        else:
+            continue
+        extra = [(q.name, q.default) for q in extra if q.default is not q.empty]
+        if extra:
+            out[name] = (kind, extra, names)
+    return out
+
+
+def option_values(name, opt, default):
+    """non-default values of an option to evaluate: the documented ones, else the other truth value of a bool"""
+    if (name, opt) in OPTION_TABLE:
+        return list(OPTION_TABLE[(name, opt)][1])
+    if isinstance(default, bool):
+        return [not default]
+    return []
+
+
+def profiles(mp, name, t, Q2, opts=None):
     """forward profile of a base GPD: factor * sum_k c_k beta^(p_k) (1-beta)^(2n+1);
-    returns (factor, [(c, p)], n, sea).  n = 1 valence, n = 2 sea (profile-function power)."""
+    returns (factor, [(c, p)], n, sea).  n = 1 valence, n = 2 sea (profile-function power).
+    opts: keyword options of the GPD function (OPTION_TABLE); the profile is the one the option values define."""
+    opts = dict(opts or {})
+    unknown = [k for k in opts if (name, k) not in OPTION_TABLE]
+    if unknown:
+        raise KeyError('%s has no documented option %s' % (name, unknown))
     L = math.log(Q2 / 4.)
     if name in ('Huval', 'Hdval'):
         c = [1.52 + 0.248 * L, 2.88 - 0.940 * L, -0.095 * L, 0.] if name == 'Huval' else \
@@ -163,9 +231,13 @@ def profiles(mp, name, t, Q2):
         alt = 0.48 + 0.9 * t
         return 1.67 / float(mp.beta(1 - 0.48, 5)), [(1., -alt), (-1., -alt + 1)], 1, False
     if name == 'Edval':
+        alt = 0.48 + 0.9 * t
+        if opts.get('DMbeta', False):
+            # beta_d = 6: rho^-alpha(t) (1-rho)^6 = rho^-alpha(t) (1-rho)^3 (1 - 3 rho + 3 rho^2 - rho^3), normalised to kappa_d at t = 0
+            c = [1, -3, 3, -1]
+            return -2.03 / float(mp.beta(1 - 0.48, 1 + 6)), [(c[k], -alt + k) for k in range(4)], 1, False
         # (1-rho)^2.6 expanded up to rho^8
         c = [1, -2.6, 2.08, -0.416, -0.0416, -0.011648, -0.0046592, -0.00226304, -0.001244672]
-        alt = 0.48 + 0.9 * t
         return -2.03 / float(mp.beta(1 - 0.48, 1 + 5.6)), [(c[k], -alt + k) for k in range(9)], 1, False
     if name == 'Esea':
         alt = alpha_sea(t, Q2)
@@ -300,11 +372,11 @@ class GKRef:
         self.mp = mp
         self.cache = {}
 
-    def base(self, name, x, eta, t, Q2):
-        key = (name, x, eta, t, Q2)
+    def base(self, name, x, eta, t, Q2, opts=None):
+        key = (name, x, eta, t, Q2) + opts_key(opts)
         if key not in self.cache:
             twin = {'Hudsea': 'Hs', 'Hs': 'Hudsea', 'Etuval': 'Etdval', 'Etdval': 'Etuval'}.get(name)
-            fac, terms, n, sea = profiles(self.mp, name, t, Q2)
+            fac, terms, n, sea = profiles(self.mp, name, t, Q2, opts)
             tk = (twin, x, eta, t, Q2)
             if twin and tk in self.cache:
                 f2 = profiles(self.mp, twin, t, Q2)[0]
@@ -314,12 +386,21 @@ class GKRef:
             self.cache[key] = (fac * v, abs(fac) * e, tolerance(fac, terms, n, sea, x, eta))
         return self.cache[key]
 
-    def __call__(self, name, x, eta, t, Q2):
-        """(reference value, quadrature error estimate, tolerance)"""
+    def __call__(self, name, x, eta, t, Q2, opts=None):
+        """(reference value, quadrature error estimate, tolerance); opts: keyword options of the GPD function"""
         if name in COMPOSITE:
+            if opts:
+                raise KeyError('%s has no documented option %s' % (name, sorted(opts)))
             parts = [self.base(n, x, eta, t, Q2) for n in COMPOSITE[name]]
             return tuple(sum(p[i] for p in parts) for i in range(3))
-        return self.base(name, x, eta, t, Q2)
+        return self.base(name, x, eta, t, Q2, opts)
+
+    def moment(self, name, t, Q2, opts=None):
+        """lowest x-moment of a valence GPD from its forward profile: int dx H(x, eta) = int db h(b) = fac sum_k c_k B(1+p_k, 2n+2),
+        for every eta (polynomiality)"""
+        fac, terms, n, sea = profiles(self.mp, name, t, Q2, opts)
+        assert not sea
+        return fac * float(self.mp.fsum(self.mp.mpf(c) * self.mp.beta(1 + self.mp.mpf(p), 2 * n + 2) for c, p in terms))
 
 
 def region_of(x, eta):
@@ -756,30 +837,40 @@ def run(rep):
     worst = {}
     quad_bad = 0
 
-    def check_gpd(name, x, eta, t, Q2, stream, cls):
-        """evaluate one GPD on the real code against the reference; returns ratio |err|/tol or None"""
+    def check_gpd(name, x, eta, t, Q2, stream, cls, opts=None, positional=False):
+        """evaluate one GPD on the real code against the reference; returns ratio |err|/tol or None.
+        opts: keyword options of the GPD function (the reference is the DD integral of the profile they define);
+        positional: pass them as positional arguments after Q2 (a dict in signature order) instead of keywords"""
         nonlocal quad_bad
         reg = region_of(x, eta)
         sea = name in SEA
         near_pole = sea and (abs(alpha_sea(t, Q2) - 1) < POLE_WINDOW or pole_amplified(x, eta, -alpha_sea(t, Q2)))
-        cmd = ("python -c \"from gepard.gk import GoloskokovKrollCFF as G; print(G().%s(%r, %r, %r, %r))\""
-               % (name, x, eta, t, Q2))
-        r, e, tol = ref(name, x, eta, t, Q2)
+        opts = dict(opts or {})
+        extra = ''.join(', %r' % v_ for v_ in opts.values()) if positional else ''.join(', %s=%r' % kv for kv in opts.items())
+        label = name + ('[%s]' % opts_str(opts) if opts else '')
+        cmd = ("python -c \"from gepard.gk import GoloskokovKrollCFF as G; print(G().%s(%r, %r, %r, %r%s))\""
+               % (name, x, eta, t, Q2, extra))
+        r, e, tol = ref(name, x, eta, t, Q2, opts) if opts else ref(name, x, eta, t, Q2)
         r = float(r)
         rep.hist(stream + '.region', reg)
-        rep.hist(stream + '.gpd', name)
-        rep.case(stream, (name, x, eta, t, Q2), sample=dict(gpd=name, x=x, eta=eta, t=t, Q2=Q2, cls=cls, ref=r))
+        rep.hist(stream + '.gpd', label)
+        rep.case(stream, (name, x, eta, t, Q2) + ((opts_key(opts), positional) if opts else ()),
+                 sample=dict(gpd=name, x=x, eta=eta, t=t, Q2=Q2, cls=cls, ref=r, **({'options': opts_str(opts)} if opts else {})))
         if float(e) > 0.01 * (tol + 1e-9 * abs(r)) and float(e) > 1e-300:
             quad_bad += 1
             return None
+        xo = dict(options={k_: v_ for k_, v_ in opts.items()}, passed='positional' if positional else 'keyword') if opts else {}
         try:
-            v = float(getattr(gk, name)(x, eta, t, Q2))
+            if positional:
+                v = float(getattr(gk, name)(x, eta, t, Q2, *opts.values()))
+            else:
+                v = float(getattr(gk, name)(x, eta, t, Q2, **opts))
         except Exception as ex:
             rep.violation('gk/%s-%s/%s' % ('sea' if sea else 'val', reg, exc_name(ex)),
-                          '%s(x=%r, eta=%r, t=%r, Q2=%r) raises %s: %s; the double-distribution integral of its '
-                          'forward profile there is %r' % (name, x, eta, t, Q2, exc_name(ex), ex, r),
+                          '%s(x=%r, eta=%r, t=%r, Q2=%r%s) raises %s: %s; the double-distribution integral of its '
+                          'forward profile there is %r' % (name, x, eta, t, Q2, extra, exc_name(ex), ex, r),
                           dict(function=name, x=x, eta=eta, t=t, Q2=Q2, region=reg, observed=exc_name(ex) + ': ' + str(ex),
-                               required=r, cmd=cmd))
+                               required=r, cmd=cmd, **xo))
             return None
         full = tol + 1e-9 * abs(r)
         err = abs(v - r) if finite(v) else float('inf')
@@ -794,14 +885,16 @@ def run(rep):
                     pole = not (finite(vs) and abs(vs - float(rs)) <= ts_ + 1e-9 * abs(float(rs)))
                 except Exception:
                     pole = False
-            key = 'gk/sea/alpha1-pole' if pole else 'gk/%s/%s/value' % (name, reg)
-            rep.violation(key, '%s(x=%r, eta=%r, t=%r, Q2=%r) = %r but the double-distribution integral of its '
-                          'forward profile is %r (|diff| %.3g, allowed %.3g)%s' % (
-                              name, x, eta, t, Q2, v, r, err, full,
+            key = 'gk/sea/alpha1-pole' if pole else 'gk/%s/%s/value' % (label, reg)
+            rep.violation(key, '%s(x=%r, eta=%r, t=%r, Q2=%r%s) = %r but the double-distribution integral of %s '
+                          'is %r (|diff| %.3g, allowed %.3g)%s' % (
+                              name, x, eta, t, Q2, extra, v,
+                              'the forward profile that %s defines (%s)' % (opts_str(opts), OPTION_DOC.get((name, opts_key(opts)), 'see OPTION_TABLE'))
+                              if opts else 'its forward profile', r, err, full,
                               '; alpha_sea(t,Q2) = %r is near the Gamma(1+p) pole of _intsea' % alpha_sea(t, Q2)
                               if key == 'gk/sea/alpha1-pole' else ''),
                           dict(function=name, x=x, eta=eta, t=t, Q2=Q2, region=reg, observed=v, required=r,
-                               tolerance=full, cmd=cmd))
+                               tolerance=full, cmd=cmd, **xo))
         ratio = err / full if full > 0 else (0. if err == 0 else float('inf'))
         worst[stream] = max(worst.get(stream, 0.), ratio if ratio == ratio else float('inf'))
         return ratio
@@ -1009,6 +1102,168 @@ def run(rep):
                           '%r vs %r (eta=%r, p=%r)' % (float(lhs), float(rhs), eta, p), dict(eta=eta, p=p),
                           found_input=False)
 
+    # ================= gk-options: the keyword options of the public GPD / CFF functions =================
+    # The property quantifies over the GPD functions as they can be CALLED: a function that takes options beyond (x, eta, t, Q2)
+    # defines one GPD per option value, each with its own forward profile (OPTION_TABLE).  The options are discovered on the real
+    # class; every non-default value (and the default passed explicitly) is evaluated in the DGLAP and ERBL regions, as keyword and
+    # as positional argument, against the DD integral of the profile that value defines.  Runs last: the streams above see the same
+    # random points as before.
+    optfuns = gk_option_functions(GoloskokovKrollCFF)
+    rep.coverage['gk_option_functions'] = {k: dict(kind=v_[0], options={o: repr(d_) for o, d_ in v_[1]}) for k, v_ in sorted(optfuns.items())}
+    variants = {}      # GPD name -> [(options as keywords, the same in signature order with the earlier options at their defaults, is_default)]
+    for name, (kind, extra, _names) in sorted(optfuns.items()):
+        if kind != 'gpd':
+            continue
+        for i, (opt, default) in enumerate(extra):
+            if name not in BASE or (name, opt) not in OPTION_TABLE:
+                rep.notes.append('GoloskokovKrollCFF.%s takes the option %s=%r of which this harness knows no forward profile: its '
+                                 'non-default values are NOT compared with a DD integral' % (name, opt, default))
+                rep.hist('gk-options.uncovered', '%s.%s' % (name, opt))
+                continue
+            if OPTION_TABLE[(name, opt)][0] != default:
+                rep.notes.append('GoloskokovKrollCFF.%s: default of the option %s is %r, documented %r' % (
+                    name, opt, default, OPTION_TABLE[(name, opt)][0]))
+            for val, is_def in [(v_, False) for v_ in option_values(name, opt, default)] + [(OPTION_TABLE[(name, opt)][0], True)]:
+                ordered = {o: d_ for o, d_ in extra[:i]}
+                ordered[opt] = val
+                if all((name, o) in OPTION_TABLE for o in ordered):
+                    variants.setdefault(name, []).append(({opt: val}, ordered, is_def))
+    fixed = [(0.30, 0.10, -0.20, 4.0, 'fixed'), (0.05, 0.20, -0.50, 10.0, 'fixed'), (-0.10, 0.35, 0.0, 2.0, 'fixed'),
+             (0.60, 0.90, -1.0, 40.0, 'fixed'), (0.02, 1e-4, -0.30, 4.0, 'fixed')]
+    n_opt = 40 if quick else 600
+    for name in sorted(variants):
+        for i, (x, eta, t, Q2, cls) in enumerate(fixed + gk_points(rng, n_opt)):
+            if name not in SEA and x <= -eta and i % 5:
+                x = -x          # valence: zero outside x > -eta (gk-symmetry looks at that); spend the points inside the support
+            for kw, ordered, is_def in variants[name]:
+                if is_def and i % 4 != 1:
+                    continue
+                check_gpd(name, x, eta, t, Q2, 'gk-options', cls, opts=kw)
+                if i % 4 == 0:
+                    check_gpd(name, x, eta, t, Q2, 'gk-options', cls + '/positional', opts=ordered, positional=True)
+            ref.cache.clear()
+
+    # Im CFFs that forward such an option: Im F(xi) = pi sum_q e_q^2 (F^q_val + 2 F^q_sea)(xi, xi, t, Q2), each GPD from its DD integral
+    n_cff = 6 if quick else 60
+    for name, (kind, extra, pnames) in sorted(optfuns.items()):
+        if kind != 'cff':
+            continue
+        if name not in CFF_FLAVOURS:
+            rep.notes.append('GoloskokovKrollCFF.%s takes the options %s; this harness has no flavour decomposition for it: not compared'
+                             % (name, [o for o, _ in extra]))
+            rep.hist('gk-options.uncovered', name)
+            continue
+        for i, (opt, default) in enumerate(extra):
+            takers = [b for _, b, _s in CFF_FLAVOURS[name] if b in variants and any(opt in kw for kw, _, _d in variants[b])]
+            vals = sorted(set(v_ for b in takers for kw, _, d_ in variants[b] for o, v_ in kw.items() if o == opt), key=repr)
+            if not takers:
+                rep.notes.append('GoloskokovKrollCFF.%s takes the option %s that none of its GPDs takes: not compared' % (name, opt))
+                rep.hist('gk-options.uncovered', '%s.%s' % (name, opt))
+                continue
+            for k in range(n_cff):
+                while True:
+                    xi0, t, Q2 = 10 ** rng.uniform(-3, math.log10(0.6)), rng.uniform(-1, 0), rng.uniform(2, 40)
+                    if abs(alpha_sea(t, Q2) - 1) > POLE_BAND:
+                        break
+                pt = g.DataPoint(xB=2 * xi0 / (1 + xi0), t=t, Q2=Q2)
+                explicit = k % 2 == 1                       # xi passed as argument instead of being taken from the point
+                xi = xi0 if explicit else float(pt.xi)
+                for val in vals:
+                    rv = re_ = tl = 0.
+                    for w, vname, sname in CFF_FLAVOURS[name]:
+                        if vname:
+                            r1, e1, t1 = ref(vname, xi, xi, t, Q2, {opt: val} if vname in takers else None)
+                            rv, re_, tl = rv + w * float(r1), re_ + w * float(e1), tl + w * t1
+                        r2, e2, t2 = ref(sname, xi, xi, t, Q2)
+                        rv, re_, tl = rv + 2 * w * float(r2), re_ + 2 * w * float(e2), tl + 2 * w * t2
+                    rv, re_, tl = math.pi * rv, math.pi * re_, math.pi * tl + 1e-9 * abs(math.pi * rv)
+                    label = '%s[%s=%r]' % (name, opt, val)
+                    rep.case('gk-options', (label, xi, t, Q2, explicit), sample=dict(cff=label, xi=xi, t=t, Q2=Q2, ref=rv))
+                    rep.hist('gk-options.gpd', label)
+                    if re_ > 0.01 * tl:
+                        quad_bad += 1
+                        continue
+                    if explicit and 'xi' in pnames and pnames.index('xi') == 1 and i == 0 and pnames.index(opt) == 2:
+                        call, cs = (lambda: getattr(gk, name)(pt, xi, val)), '(pt, %r, %r)' % (xi, val)
+                    elif explicit and 'xi' in pnames:
+                        call, cs = (lambda: getattr(gk, name)(pt, xi=xi, **{opt: val})), '(pt, xi=%r, %s=%r)' % (xi, opt, val)
+                    else:
+                        call, cs = (lambda: getattr(gk, name)(pt, **{opt: val})), '(pt, %s=%r)' % (opt, val)
+                    cmd = ("python -c \"import gepard as g; pt = g.DataPoint(xB=%r, t=%r, Q2=%r); print(g.cff.GoloskokovKrollCFF().%s%s)\""
+                           % (2 * xi0 / (1 + xi0), t, Q2, name, cs))
+                    rp = dict(function=name, xi=xi, xB=2 * xi0 / (1 + xi0), t=t, Q2=Q2, options={opt: val}, required=rv, tolerance=tl, cmd=cmd)
+                    try:
+                        v = float(call())
+                    except Exception as ex:
+                        rep.violation('gk/%s/%s' % (label, exc_name(ex)), '%s%s raises %s: %s (xB=%r, t=%r, Q2=%r); required %r' % (
+                            name, cs, exc_name(ex), ex, 2 * xi0 / (1 + xi0), t, Q2, rv), dict(rp, observed=exc_name(ex) + ': ' + str(ex)))
+                        continue
+                    if not (finite(v) and abs(v - rv) <= tl):
+                        rep.violation('gk/%s/value' % label, '%s%s = %r at xB=%r (xi=%r), t=%r, Q2=%r, but pi sum_q e_q^2 (E^q_val + 2 E^q_sea)(xi, xi) with the '
+                                      'double-distribution integrals of the forward profiles that %s=%r defines is %r (|diff| %.3g, allowed %.3g)' % (
+                                          name, cs, v, 2 * xi0 / (1 + xi0), xi, t, Q2, opt, val, rv, abs(v - rv), tl), dict(rp, observed=v))
+                ref.cache.clear()
+
+    # ================= gk-moment: lowest x-moment of the valence GPDs E^q_val = normalisation of the forward profile =================
+    # a second oracle that needs no DD integral: int_-1^1 dx E^q_val(x, eta, t) = int_0^1 drho e_q(rho, t) for EVERY eta (polynomiality),
+    # = kappa_q at t = 0 (GK12 Table 1), whatever the options.  Quadrature of the real function (scipy QUADPACK), split at x = eta.
+    import warnings
+    from scipy.integrate import quad
+
+    def xmoment(name, eta, t, Q2, opts):
+        f = getattr(gk, name)
+        with warnings.catch_warnings():
+            warnings.simplefilter('error')
+            a = quad(lambda y: float(f(y, eta, t, Q2, **opts)), -eta, eta, epsabs=0, epsrel=1e-10, limit=200)
+            b = quad(lambda y: float(f(y, eta, t, Q2, **opts)), eta, 1., epsabs=0, epsrel=1e-10, limit=200)
+        return a[0] + b[0], a[1] + b[1]
+
+    mom_obs = {}
+    for name in sorted(KAPPA):
+        if not hasattr(gk, name):
+            continue
+        for opts in [{}] + [kw for kw, _, _d in variants.get(name, [])]:
+            label = name + ('[%s]' % opts_str(opts) if opts else '')
+            etas = [rng.uniform(0.05, 0.3), rng.uniform(0.3, 0.7)] + ([] if quick else [rng.uniform(0.02, 0.9) for _ in range(4)])
+            Q2 = rng.uniform(2, 40)
+            for t in [0.0, rng.uniform(-1, 0)] + ([] if quick else [rng.uniform(-1, 0) for _ in range(3)]):
+                need = ref.moment(name, t, Q2, opts)
+                got = []
+                for eta in etas:
+                    rep.case('gk-moment', (label, eta, t), sample=dict(gpd=label, eta=eta, t=t, required=need))
+                    rep.hist('gk-moment.gpd', label)
+                    cmd = ("python -c \"from scipy.integrate import quad; from gepard.gk import GoloskokovKrollCFF as G; f = lambda x: G().%s(x, %r, %r, %r%s); "
+                           "print(quad(f, %r, %r, epsrel=1e-10, limit=200)[0] + quad(f, %r, 1, epsrel=1e-10, limit=200)[0])\""
+                           % (name, eta, t, Q2, ''.join(', %s=%r' % kv for kv in opts.items()), -eta, eta, eta))
+                    rp = dict(function=name, quantity='moment', eta=eta, t=t, Q2=Q2, options=dict(opts), required=need, cmd=cmd)
+                    try:
+                        m, err = xmoment(name, eta, t, Q2, opts)
+                    except Warning:
+                        quad_bad += 1
+                        continue
+                    except Exception as ex:
+                        rep.violation('gk/%s/moment/%s' % (label, exc_name(ex)), 'int dx %s(x, eta=%r, t=%r, Q2=%r%s) raises %s: %s' % (
+                            name, eta, t, Q2, ''.join(', %s=%r' % kv for kv in opts.items()), exc_name(ex), ex), dict(rp, observed=exc_name(ex) + ': ' + str(ex)))
+                        continue
+                    got.append((eta, m, err))
+                    tol = 1e-7 * abs(need) + 100 * err
+                    mom_obs[label] = max(mom_obs.get(label, 0.), abs(m - need) / abs(need))
+                    call = '%s(x, eta=%r, t=%r, Q2=%r%s)' % (name, eta, t, Q2, ''.join(', %s=%r' % kv for kv in opts.items()))
+                    if t == 0.0 and not abs(m - KAPPA[name]) <= 1e-5 * abs(KAPPA[name]) + 100 * err:
+                        rep.violation('gk/%s/moment-kappa' % label, 'int_-1^1 dx %s = %r, but the lowest moment of E^q_val at t = 0 is the normalisation '
+                                      'kappa = %r of its forward profile for every eta and every option (GK12 Table 1; allowed 1e-5 relative for '
+                                      'the truncated expansion of (1-rho)^2.6)' % (call, m, KAPPA[name]), dict(rp, observed=m, required=KAPPA[name]))
+                    elif not abs(m - need) <= tol:
+                        rep.violation('gk/%s/moment' % label, 'int_-1^1 dx %s = %r, but the integral of its forward profile int_0^1 drho e(rho, t) is %r '
+                                      '(polynomiality: for every eta; allowed %.3g)' % (call, m, need, tol), dict(rp, observed=m, tolerance=tol))
+                if len(got) >= 2:
+                    (e1, m1, r1), (e2, m2, r2) = min(got, key=lambda g_: g_[1]), max(got, key=lambda g_: g_[1])
+                    if not m2 - m1 <= 2e-7 * abs(need) + 100 * (r1 + r2):
+                        rep.violation('gk/%s/moment-eta-dependence' % label, 'int_-1^1 dx %s(x, eta, t=%r, Q2=%r%s) = %r at eta = %r but %r at eta = %r: the lowest '
+                                      'moment of a GPD does not depend on eta (polynomiality)' % (name, t, Q2, ''.join(', %s=%r' % kv for kv in opts.items()), m1, e1, m2, e2),
+                                      dict(function=name, quantity='moment', eta=e1, eta2=e2, t=t, Q2=Q2, options=dict(opts), observed=[m1, m2], required=need))
+    rep.coverage['gk_moment_max_rel_dev_from_profile'] = mom_obs
+
     rep.coverage['gk_worst_err_over_tol'] = worst
     rep.coverage['gk_reference_quadrature_unreliable_skipped'] = quad_bad
     if gk_internals_missing and not rep.violations:
@@ -1026,9 +1281,13 @@ def run(rep):
         'neglected term.  The unsuppressed scale is used because the GPD itself vanishes like (1-x)^(2n+1)',
         'reference: alpha eliminated with the delta function, beta integral by mpmath tanh-sinh at 25 digits; cases whose '
         'quadrature error estimate exceeds 1 % of the tolerance are skipped and counted',
-        'sea antisymmetry / valence support are compared exactly (bitwise) on the real code']
+        'sea antisymmetry / valence support are compared exactly (bitwise) on the real code',
+        'options: Edval(DMbeta=True) is read as the GPD of the profile -2.03/B(0.52, 7) rho^-(0.48+0.9t) (1-rho)^6 (gk.py: "choice of DM", '
+        'beta_d = 6 in place of GK\'s 5.6, same kappa_d, alpha0, alpha\'); same tolerance as the default-option GPDs.  Lowest moment: '
+        '1e-7 relative to the integral of the profile (+100 x the QUADPACK error estimate), 1e-5 relative to kappa at t = 0 (the truncated '
+        'expansion of (1-rho)^2.6 of the default Edval misses kappa_d by 9e-7), eta-independence 2e-7']
     rep.notes += [
-        'ORACLE streams (eff-oracle, gk-oracle, gk-switch, gk-symmetry, gk-pole) evaluate the property on the real code '
+        'ORACLE streams (eff-oracle, gk-oracle, gk-switch, gk-symmetry, gk-pole, gk-options, gk-moment) evaluate the property on the real code '
         'against independent references; they support the theorems and carry the DD-integral / continuity part that no '
         'theorem here proves',
         'valence Taylor branch (eta/x < 1e-4) lies outside the property domain (eta >= 1e-4, x < 1); it is exercised by '
@@ -1044,17 +1303,39 @@ def run(rep):
 def replay(path):
     d = json.load(open(path))
     print(json.dumps({k: d[k] for k in d if k != 'cmd'}, indent=1)[:3000])
-    if d.get('function') in ALL_GPDS:
+    if d.get('function') in ALL_GPDS and d.get('quantity') == 'moment':
+        import mpmath as mp
+        from scipy.integrate import quad
+        from gepard.gk import GoloskokovKrollCFF
+        mp.mp.dps = 25
+        opts = d.get('options') or {}
+        gk = GoloskokovKrollCFF()
+        need = GKRef(mp).moment(d['function'], d['t'], d['Q2'], opts)
+
+        def f(y, eta):
+            return float(getattr(gk, d['function'])(y, eta, d['t'], d['Q2'], **opts))
+        rc = 0
+        for eta in [d['eta']] + ([d['eta2']] if 'eta2' in d else []):
+            m = quad(f, -eta, eta, args=(eta,), epsabs=0, epsrel=1e-10, limit=200)[0] + quad(f, eta, 1., args=(eta,), epsabs=0, epsrel=1e-10, limit=200)[0]
+            print('now: int dx %s(x, %r, %r, %r, %s) = %r ; integral of the forward profile %r' % (d['function'], eta, d['t'], d['Q2'], opts, m, need))
+            if not abs(m - need) <= 1e-6 * abs(need):
+                rc = 1
+        return rc
+    if d.get('function') in ALL_GPDS and 'x' in d:
         import mpmath as mp
         from gepard.gk import GoloskokovKrollCFF
         mp.mp.dps = 25
         args = (d['x'], d['eta'], d['t'], d['Q2'])
-        r, e, tol = GKRef(mp)(d['function'], *args)
+        opts = d.get('options') or {}
+        r, e, tol = GKRef(mp)(d['function'], *args, opts) if opts else GKRef(mp)(d['function'], *args)
         try:
-            v = getattr(GoloskokovKrollCFF(), d['function'])(*args)
+            if d.get('passed') == 'positional':
+                v = getattr(GoloskokovKrollCFF(), d['function'])(*args, *opts.values())
+            else:
+                v = getattr(GoloskokovKrollCFF(), d['function'])(*args, **opts)
         except Exception as ex:
             v = '%s: %s' % (type(ex).__name__, ex)
-        print('now: %s%r = %r ; DD integral %r ; allowed %g' % (d['function'], args, v, float(r), tol))
+        print('now: %s%r %s = %r ; DD integral %r ; allowed %g' % (d['function'], args, opts or '', v, float(r), tol))
         return 0 if finite(v) and abs(float(v) - float(r)) <= tol + 1e-9 * abs(float(r)) else 1
     if 'cmd' in d:
         print('reproduce with: ' + d['cmd'])
